@@ -498,7 +498,8 @@ class Attr(SimpleCorr):
                    "the harness classifies the private AttributeError by its Display text"]
 
     def gen_cmds(self, seed, tier):
-        return [["--seed", str(seed), "--cases", "5000" if tier == "quick" else "150000"]]
+        # thorough: 60000 cases is about 0.3 GB of implementation output and 0.9 GB of model output (held in memory by the driver)
+        return [["--seed", str(seed), "--cases", "5000" if tier == "quick" else "60000"]]
 
     # ---- spec-side lines
     @staticmethod
